@@ -51,8 +51,30 @@ struct Ref {
 
 fn push_item(list: &mut Vec<H>, r: &mut Ref, font: &AnyFont) {
     let kind: u8 = kani::any();
-    kani::assume(kind < 6);
+    kani::assume(kind < 9);
     match kind {
+        6 => {
+            // nested vbox with a shift (same arm as hbox in TeX.2021.653)
+            let (h, w, d, s) = (amt(), amt(), amt(), amt());
+            let b = ds::VBox { height: Scaled(h), width: Scaled(w), depth: Scaled(d), shift_amount: Scaled(s), ..Default::default() };
+            list.push(H::VBox(b));
+            r.w += w as i64;
+            if (h as i64 - s as i64) > r.h { r.h = h as i64 - s as i64; }
+            if (d as i64 + s as i64) > r.d { r.d = d as i64 + s as i64; }
+        }
+        7 => {
+            // an (empty) discretionary contributes nothing to the box (TeX.2021.651: only its break matters)
+            list.push(H::Discretionary(ds::Discretionary::new()));
+        }
+        8 => {
+            // a ligature is measured like its character (TeX.2021.654)
+            list.push(H::Ligature(ds::Ligature { char: 'a', font: 0, original_chars: "fi".into(), includes_left_boundary: false, includes_right_boundary: false }));
+            if let Some([w, h, d]) = font.whd {
+                r.w += w.0 as i64;
+                if (h.0 as i64) > r.h { r.h = h.0 as i64; }
+                if (d.0 as i64) > r.d { r.d = d.0 as i64; }
+            }
+        }
         0 => {
             // glue
             let (w, st, sh) = (amt(), amt(), amt());
@@ -187,4 +209,16 @@ fn c15_hpack_3_items() {
 #[kani::unwind(6)]
 fn c15_hpack_4_items() {
     hpack_vs_tex::<4>();
+}
+
+#[kani::proof]
+#[kani::unwind(8)]
+fn c15_hpack_5_items() {
+    hpack_vs_tex::<5>();
+}
+
+#[kani::proof]
+#[kani::unwind(8)]
+fn c15_hpack_6_items() {
+    hpack_vs_tex::<6>();
 }
